@@ -2,6 +2,7 @@ SPECIFICATION Spec
 CONSTANTS MaxLen = 3
   Vocabulary <- SmallElements
 INVARIANT OpEqDen
+INVARIANT RunTimeWins
 INVARIANT AffixOnce
 INVARIANT PendingOnce
 PROPERTY NameStable
